@@ -114,7 +114,6 @@ func (t TTerm) Src() string {
 	return "?" + t.K
 }
 
-
 // universeSrc is the fixture package realising the named part of GoTypes.tla's universe.
 const universeSrc = `package u
 import "unsafe"
